@@ -32,9 +32,23 @@ def compare(impl, m):
             return 'exception message: impl %r model %r' % (ires['msg'], mres['msg'])
     elif ires != mres:
         return 'result: impl %s model %s' % (json.dumps(ires)[:200], json.dumps(mres)[:200])
-    if impl['events'] != m['trace']:
+    if canon_events(impl['events']) != canon_events(m['trace']):
         return 'event trace (calls / namespace snapshots) differs'
     return None
+
+
+def canon_events(evs):
+    """the order of the keys inside one dictionary frame of a namespace snapshot is no observation of any property (a
+    key occurs once per frame; Python keeps a re-assigned key in its old place, the model appends it): sorted on both sides
+    (false alarm of the C13 thorough tier, seed 5: `<dtml-if f>…<dtml-elif y>…<dtml-elif f>` stores f, y, f in the cache)"""
+    out = []
+    for e in evs:
+        if isinstance(e, list) and e and e[0] == 'snap' and len(e) > 1 and isinstance(e[1], list):
+            frames = [[f[0], sorted(f[1]), *f[2:]] if isinstance(f, list) and len(f) > 1 and f[0] == 'dict' and
+                      isinstance(f[1], list) else f for f in e[1]]
+            e = [e[0], frames, *e[2:]]
+        out.append(e)
+    return out
 
 
 def run_cases(res, cases, plans=None, label=''):
